@@ -341,6 +341,11 @@ where
             if chain.contains(&key) {
                 bail!("Recursive reference");
             }
+            // every typed load in progress is a set of stack frames: at most 32 may be nested (a /Parent chain of a
+            // few hundred page tree nodes overflowed the stack; the tree walks have budgets of the same order)
+            if chain.len() >= 32 {
+                bail!("typed loads nested too deeply");
+            }
             chain.push(key);
         }
         let _defer = Defer(|| {
